@@ -7,6 +7,7 @@ package main
 import (
 	"fmt"
 	"os"
+	"runtime"
 	"strings"
 	"sync"
 
@@ -17,6 +18,7 @@ import (
 )
 
 func main() {
+	scen.Yield = runtime.Gosched
 	rounds := 200
 	if len(os.Args) > 1 {
 		fmt.Sscan(os.Args[1], &rounds)
